@@ -245,9 +245,9 @@ pub fn table(ctx: &Ctx) -> Report {
         adds("ldapi:///".into(), Stream::Invalid, Expect::Err(vec!["MismatchedStreamType"]), "invalid (cloned) stream with ldapi");
         adds(format!("ldap://127.0.0.1:{}", pe), Stream::Invalid, Expect::Err(vec!["MismatchedStreamType"]), "invalid (cloned) stream with ldap");
         // --- timeout bounds the whole establishment, including StartTLS ---
-        cases.push(Case { url: format!("ldap://127.0.0.1:{}", ps), starttls: true, timeout_ms: Some(300), stream: Stream::None, expect: Expect::Err(vec!["Timeout"]), max_ms: Some(10_000), note: "StartTLS against a server that never answers: the connection timeout must fire" });
-        cases.push(Case { url: format!("ldaps://127.0.0.1:{}", ps), starttls: false, timeout_ms: Some(300), stream: Stream::None, expect: Expect::Err(vec!["Timeout"]), max_ms: Some(10_000), note: "TLS handshake against a server that never answers: the connection timeout must fire" });
-        cases.push(Case { url: format!("ldap://127.0.0.1:{}", pe), starttls: true, timeout_ms: Some(2000), stream: Stream::None, expect: Expect::AnyErr, max_ms: Some(10_000), note: "StartTLS against a server that closes" });
+        cases.push(Case { url: format!("ldap://127.0.0.1:{}", ps), starttls: true, timeout_ms: Some(300), stream: Stream::None, expect: Expect::Err(vec!["Timeout"]), max_ms: Some(6_000), note: "StartTLS against a server that never answers: the connection timeout must fire" });
+        cases.push(Case { url: format!("ldaps://127.0.0.1:{}", ps), starttls: false, timeout_ms: Some(300), stream: Stream::None, expect: Expect::Err(vec!["Timeout"]), max_ms: Some(6_000), note: "TLS handshake against a server that never answers: the connection timeout must fire" });
+        cases.push(Case { url: format!("ldap://127.0.0.1:{}", pe), starttls: true, timeout_ms: Some(2000), stream: Stream::None, expect: Expect::AnyErr, max_ms: Some(6_000), note: "StartTLS against a server that closes" });
         // --- fuzzed URLs: no panic, no hang ---
         let mut rng = Rng::new(seed ^ 0xc18);
         let nf = if tiny { 5 } else { 300 };
@@ -280,7 +280,7 @@ pub fn table(ctx: &Ctx) -> Report {
             };
             let url = format!("{}{}{}{}{}", scheme, sep, host, port, path);
             let stream = *rng.pick(&[Stream::None, Stream::None, Stream::None, Stream::TcpTo(pe), Stream::Unix, Stream::Invalid]);
-            cases.push(Case { url, starttls: rng.chance(1, 4), timeout_ms: Some(400), stream, expect: Expect::NoPanic, max_ms: Some(15_000), note: "fuzzed URL / settings combination" });
+            cases.push(Case { url, starttls: rng.chance(1, 4), timeout_ms: Some(400), stream, expect: Expect::NoPanic, max_ms: Some(7_000), note: "fuzzed URL / settings combination" });
         }
         // run every case through the async and the sync entry points
         let mut out = vec![];
@@ -299,11 +299,17 @@ pub fn table(ctx: &Ctx) -> Report {
                 let _ = take_hits(&hits);
                 let t0 = Instant::now();
                 let url = c.url.clone();
+                if std::env::var("VH_DEBUG").is_ok() {
+                    eprintln!("C18 case {:?} sync={} starttls={} stream={:?}", url, sync, c.starttls, c.stream);
+                }
                 let res: String = if sync {
-                    let r = tokio::task::spawn_blocking(move || {
-                        crate::report::guarded(|| LdapConn::with_settings(settings, &url).map(|_| ()))
+                    // a plain detached thread: a setup that hangs must not block runtime shutdown
+                    let (tx, rx) = tokio::sync::oneshot::channel();
+                    std::thread::spawn(move || {
+                        let r = crate::report::guarded(|| LdapConn::with_settings(settings, &url).map(|_| ()));
+                        let _ = tx.send(r);
                     });
-                    match tokio::time::timeout(Duration::from_secs(30), r).await {
+                    match tokio::time::timeout(Duration::from_secs(8), rx).await {
                         Ok(Ok(Ok(Ok(())))) => "Ok".into(),
                         Ok(Ok(Ok(Err(e)))) => format!("Err({})", err_class(&e)),
                         Ok(Ok(Err(p))) => format!("Panic({})", p.site()),
@@ -312,7 +318,7 @@ pub fn table(ctx: &Ctx) -> Report {
                     }
                 } else {
                     let fut = Caught::new(LdapConnAsync::with_settings(settings, &url));
-                    match tokio::time::timeout(Duration::from_secs(30), fut).await {
+                    match tokio::time::timeout(Duration::from_secs(8), fut).await {
                         Ok(Ok(Ok(_))) => "Ok".into(),
                         Ok(Ok(Err(e))) => format!("Err({})", err_class(&e)),
                         Ok(Err(p)) => format!("Panic({})", p.site()),
@@ -327,7 +333,7 @@ pub fn table(ctx: &Ctx) -> Report {
         }
         out
     });
-    drop(rt);
+    rt.shutdown_background();
     let _ = std::fs::remove_dir_all(&dir);
     for (url, sync, note, _exp_s, res, extra, hits, ms, max_ms, expect, stream, starttls) in results {
         let api = if sync { "LdapConn" } else { "LdapConnAsync" };
